@@ -45,7 +45,8 @@ package prunner
 //@ pure registered(j *PipelineJob, r *PipelineRunner) bool = (j.ID in r.jobsByID) ==> r.jobsByID[j.ID] == j
 //@ pure RIreg(r *PipelineRunner) bool = forall p string :: all(r.jobsByPipeline[p], registered, r)
 //@ pure RIwf(r *PipelineRunner) bool = forall p string :: wf(r.jobsByPipeline[p]) && wf(r.waitListByPipeline[p])
-//@ pure RI(r *PipelineRunner) bool = RIbase(r) && RIids(r) && RIwf(r) && RIjobs(r) && RIwl(r) && RIsep(r) && RIreg(r)
+//@ pure RIdist(r *PipelineRunner) bool = forall p string :: distinctElems(r.jobsByPipeline[p])
+//@ pure RI(r *PipelineRunner) bool = RIbase(r) && RIids(r) && RIwf(r) && RIjobs(r) && RIwl(r) && RIsep(r) && RIreg(r) && RIdist(r)
 
 // ---------------------------------------------------------------------------------------
 //@ func (*PipelineJob).isRunning
@@ -240,6 +241,10 @@ package prunner
 // ---------------------------------------------------------------------------------------
 // Monitor invariant: assumed when mx is acquired, proved when it is released (bridge B1).
 //@ monitor [RI] RI(r)
+// Interference: while a goroutine does not hold r.mx every shared location may change; what it may rely on
+// across such a gap is only what every critical section guarantees (checked as <fn>/guarantee[...]).
+//@ rely [T] Tjobs()
+//@ rely [gate] old(r.isShuttingDown) ==> r.isShuttingDown
 
 //@ ghost $cancelSpawned array Int
 //@ pure tasksCanceled(j *PipelineJob) bool = forall i :: 0 <= i && i < len(j.Tasks) ==> j.Tasks[i].Canceled
@@ -342,6 +347,11 @@ package prunner
 //@   ensures  [C11.persist] res1 == nil ==> $persist
 //@   ensures  [T] Tjobs()
 //@   ensures  [defs] r.defs == old(r.defs)
+//@   at call (*PipelineRunner).startJob#1: assert [distNew] all(old(r.jobsByPipeline[pipeline]), neq, job)
+//@   at call (*PipelineRunner).startJob#1: assert [distOld] distinctElems(old(r.jobsByPipeline[pipeline]))
+//@   at call (*PipelineRunner).startJob#1: assert [distInit] distinctElems(r.jobsByPipeline[pipeline][:len(r.jobsByPipeline[pipeline])-1])
+//@   at call (*PipelineRunner).startJob#1: assert [distList] distinctElems(r.jobsByPipeline[pipeline])
+//@   at call (*PipelineRunner).startJob#1: assert [distAll] RIdist(r)
 //@   at call (*PipelineRunner).startJob#1: assert [cntPrefix] cnt(r.jobsByPipeline[pipeline][:len(r.jobsByPipeline[pipeline])-1], jobRunning) == old(running(r, pipeline))
 //@   at call (*PipelineRunner).startJob#1: assert [cntLast] running(r, pipeline) == cnt(r.jobsByPipeline[pipeline][:len(r.jobsByPipeline[pipeline])-1], jobRunning)
 
@@ -373,6 +383,9 @@ package prunner
 //@   ensures  [T] Tjobs()
 //@   ensures  [defs] r.defs == old(r.defs)
 //@   ensures  [lists] same("map(map[string][]*PipelineJob)") && same("map(map[uuid.UUID]*PipelineJob)") && same(PipelineJob.Start) && same(PipelineJob.Canceled) && same(PipelineJob.Completed)
+//@   modifies jobTask.Status, $persist, $clock
+//@   at call (*PipelineRunner).requestPersist#1: assert [C08.stageStatus] (jt.Canceled ==> jt.Status == "canceled") && jt.Canceled == old(jt.Canceled) && jt.Errored == old(jt.Errored)
+//@   at call (*PipelineRunner).requestPersist#1: assert [C08.stageFrame] forall x *jobTask :: x != jt ==> x.Status == old(x.Status)
 
 //@ func (*PipelineRunner).ReadJob
 //@   safety
@@ -402,6 +415,7 @@ package prunner
 //@   lockmode any
 //@   trusted sort.Sort permutes the slice in place using Len/Less/Swap of pipelineJobsSorter
 //@   ensures [perm] sameOutside("mem(*PipelineJob)", jobs) && permOf(jobs)
+//@   ensures [sorted] by == byCreationTimeDesc ==> forall i, j :: 0 <= i && i < j && j < len(jobs) ==> jobs[i].Created >= jobs[j].Created
 //@   modifies mem(*PipelineJob)
 
 //@ pure swapRel(e *PipelineJob, i int, w []*PipelineJob, m int) bool = (i != m ==> e == old(w[i])) && (i == m ==> e == old(w[len(w)-1]))
@@ -417,6 +431,9 @@ package prunner
 //@   modifies mem(*PipelineJob)
 //@   loop 1 invariant [bounds] 0 <= $i + 1 && $i + 1 <= len(jobs) && same("mem(*PipelineJob)") && all(jobs[:$i+1], idNeq, jobToRemove)
 
+//@ pure retPeriod(r *PipelineRunner, j *PipelineJob) int = r.defs.Pipelines[j.Pipeline].RetentionPeriod
+//@ pure retCount(r *PipelineRunner, j *PipelineJob) int = r.defs.Pipelines[j.Pipeline].RetentionCount
+//@ ghost $passDom array Bool
 //@ pure jobFinished(j *PipelineJob) bool = !jobWaiting(j) && (j.Completed || j.Canceled)
 //@ pure jobsUntouched() bool = same(PipelineJob.Start) && same(PipelineJob.Canceled) && same(PipelineJob.Completed) && same(PipelineJob.End) && same(PipelineJob.LastError) && same(PipelineJob.sched) && same(PipelineJob.startTimer) && same(PipelineJob.Pipeline) && same(PipelineJob.ID)
 //@ pure liveKept(r *PipelineRunner) bool = forall id uuid.UUID :: old((id in r.jobsByID) && defined(r, r.jobsByID[id].Pipeline) && (jobWaiting(r.jobsByID[id]) || jobRunning(r.jobsByID[id]))) ==> (id in r.jobsByID) && r.jobsByID[id] == old(r.jobsByID[id])
@@ -441,6 +458,19 @@ package prunner
 //@   loop 1 invariant [bases] forall p string :: base(r.jobsByPipeline[p]) == old(base(r.jobsByPipeline[p])) && off(r.jobsByPipeline[p]) == old(off(r.jobsByPipeline[p]))
 //@   loop 2 invariant [bases] forall p string :: base(r.jobsByPipeline[p]) == old(base(r.jobsByPipeline[p])) && off(r.jobsByPipeline[p]) == old(off(r.jobsByPipeline[p]))
 //@   loop 2 invariant [C12.count] forall k :: 0 <= k && k <= $i && jobFinished(sortedJobsInPipeline[k]) && defined(r, sortedJobsInPipeline[k].Pipeline) && r.defs.Pipelines[sortedJobsInPipeline[k].Pipeline].RetentionCount > 0 && k >= r.defs.Pipelines[sortedJobsInPipeline[k].Pipeline].RetentionCount ==> !(sortedJobsInPipeline[k].ID in r.jobsByID)
+//@   at after (pipelineJobBy).Sort#1: ghost $passDom := domain(r.jobsByID)
+//@   loop 2 invariant [C12.pending] forall k :: $i < k && k < len(sortedJobsInPipeline) && $passDom[sortedJobsInPipeline[k].ID] ==> (sortedJobsInPipeline[k].ID in r.jobsByID)
+//@   loop 2 invariant [C12.order] forall a, b :: 0 <= a && a < b && b < len(sortedJobsInPipeline) ==> sortedJobsInPipeline[a].Created >= sortedJobsInPipeline[b].Created
+//@   loop 2 invariant [C12.period] $clock >= old($clock) && forall k :: 0 <= k && k <= $i && jobFinished(sortedJobsInPipeline[k]) && defined(r, sortedJobsInPipeline[k].Pipeline) && retPeriod(r, sortedJobsInPipeline[k]) > 0 && (sortedJobsInPipeline[k].ID in r.jobsByID) ==> old($clock) - sortedJobsInPipeline[k].Created <= retPeriod(r, sortedJobsInPipeline[k])
+//@   loop 2 invariant [C12.why] forall k :: 0 <= k && k <= $i && jobFinished(sortedJobsInPipeline[k]) && defined(r, sortedJobsInPipeline[k].Pipeline) && $passDom[sortedJobsInPipeline[k].ID] && !(sortedJobsInPipeline[k].ID in r.jobsByID) ==> (retCount(r, sortedJobsInPipeline[k]) > 0 && k >= retCount(r, sortedJobsInPipeline[k])) || (retPeriod(r, sortedJobsInPipeline[k]) > 0 && $clock - sortedJobsInPipeline[k].Created > retPeriod(r, sortedJobsInPipeline[k]))
+//@   loop 2 invariant [C12.newerFirst] forall a, b :: 0 <= a && a < b && b <= $i && jobFinished(sortedJobsInPipeline[a]) && jobFinished(sortedJobsInPipeline[b]) && sortedJobsInPipeline[a].Pipeline == sortedJobsInPipeline[b].Pipeline && defined(r, sortedJobsInPipeline[a].Pipeline) && $passDom[sortedJobsInPipeline[a].ID] && !(sortedJobsInPipeline[a].ID in r.jobsByID) ==> !(sortedJobsInPipeline[b].ID in r.jobsByID)
+//@   at call (pipelineJobBy).Sort#1: assert [C12.copyDistinct] distinctElems(jobsInPipeline) && distinctElems(sortedJobsInPipeline)
+//@   at after (*PipelineRunner).determineIfJobShouldBeRemoved#1: assert [C12.uniqueElem] forall k :: 0 <= k && k < len(sortedJobsInPipeline) && k != i ==> sortedJobsInPipeline[k] != job
+//@   at after (*PipelineRunner).determineIfJobShouldBeRemoved#1: assert [C12.uniqueId] forall k :: 0 <= k && k < len(sortedJobsInPipeline) && k != i && (sortedJobsInPipeline[k].ID in r.jobsByID) ==> sortedJobsInPipeline[k].ID != job.ID
+//@   at call Remove#1: assert [C12.whyPrev] forall k :: 0 <= k && k < i && jobFinished(sortedJobsInPipeline[k]) && defined(r, sortedJobsInPipeline[k].Pipeline) && $passDom[sortedJobsInPipeline[k].ID] && !(sortedJobsInPipeline[k].ID in r.jobsByID) ==> (retCount(r, sortedJobsInPipeline[k]) > 0 && k >= retCount(r, sortedJobsInPipeline[k])) || (retPeriod(r, sortedJobsInPipeline[k]) > 0 && $clock - sortedJobsInPipeline[k].Created > retPeriod(r, sortedJobsInPipeline[k]))
+//@   at call Remove#1: assert [C12.whyNow] jobFinished(job) && defined(r, job.Pipeline) && $passDom[job.ID] ==> (retCount(r, job) > 0 && i >= retCount(r, job)) || (retPeriod(r, job) > 0 && $clock - job.Created > retPeriod(r, job))
+//@   loop 1 invariant [clock] $clock >= old($clock)
+//@   loop 2 invariant [distinct] distinctElems(sortedJobsInPipeline)
 //@   loop 2 invariant [sorted] all(sortedJobsInPipeline, nonNil) && all(sortedJobsInPipeline, registered, r) && fresh(base(sortedJobsInPipeline)) && 0 <= $i + 1 && $i + 1 <= len(sortedJobsInPipeline)
 //@   loop 3 invariant [ri] RI(r) && r.defs == old(r.defs) && jobsUntouched() && liveKept(r) && sameExcept("map(map[string][]*PipelineJob)", old(r.jobsByPipeline)) && $held == 2 && fresh(data) && fresh(base(data.Jobs)) && wf(data.Jobs) && snapshotFaithful(r, data) && same("jobTask.*") && same(PipelineJob.Tasks) && same(PipelineJob.Variables) && same(PipelineJob.User) && same(PipelineJob.Created)
 //@   loop 4 invariant [ri] RI(r) && r.defs == old(r.defs) && jobsUntouched() && liveKept(r) && sameExcept("map(map[string][]*PipelineJob)", old(r.jobsByPipeline)) && $held == 2 && fresh(data) && fresh(base(data.Jobs)) && wf(data.Jobs) && snapshotFaithful(r, data) && same("jobTask.*") && same(PipelineJob.Tasks) && same(PipelineJob.Variables) && same(PipelineJob.User) && same(PipelineJob.Created) && 0 <= $i + 1 && $i + 1 <= len(tasks) && fresh(base(tasks)) && off(tasks) == 0 && len(tasks) == len(job.Tasks) && job != nil && r.jobsByID[job.ID] == job && (job.ID in r.jobsByID) && base(tasks) != base(data.Jobs) && forall k :: 0 <= k && k <= $i ==> persistedTaskOf(tasks[k], job.Tasks[k])
@@ -466,16 +496,15 @@ package prunner
 //@   lockmode none
 //@   ensures  [T] Tjobs()
 //@   ensures  [C11.gate] r.isShuttingDown
-//@   ensures  [defs] r.defs == old(r.defs)
-//@   loop 1 invariant [ri] RI(r) && r.isShuttingDown && Tjobs() && r.defs == old(r.defs) && $held == 2
+//@   loop 1 invariant [ri] RI(r) && r.isShuttingDown && Tjobs() && sinceLock(Tjobs()) && $held == 2
 //@   loop 1 invariant [purged] forall p string :: $seen[p] ==> !(p in r.waitListByPipeline)
-//@   loop 2 invariant [ri] RIbase(r) && RIids(r) && RIwf(r) && RIjobs(r) && RIsep(r) && RIreg(r) && r.isShuttingDown && Tjobs() && r.defs == old(r.defs) && $held == 2
+//@   loop 2 invariant [ri] RIbase(r) && RIids(r) && RIwf(r) && RIjobs(r) && RIsep(r) && RIreg(r) && RIdist(r) && r.isShuttingDown && Tjobs() && sinceLock(Tjobs()) && $held == 2
 //@   loop 2 invariant [others] forall p string :: p != pipelineName ==> all(r.waitListByPipeline[p], wlEntry, p) && distinctElems(r.waitListByPipeline[p])
 //@   loop 2 invariant [mine] jobs == r.waitListByPipeline[pipelineName] && 0 <= $i + 1 && $i + 1 <= len(jobs) && distinctElems(jobs) && all(jobs, wlEntryC, pipelineName) && all(jobs[:$i+1], canceledEntry)
 //@   loop 2 invariant [purged] forall p string :: $seen1[p] && p != pipelineName ==> !(p in r.waitListByPipeline)
-//@   loop 3 invariant [ri] r.isShuttingDown && Tjobs() && r.defs == old(r.defs) && $held == 0
-//@   loop 4 invariant [ri] RI(r) && r.isShuttingDown && Tjobs() && r.defs == old(r.defs) && $held == 1
-//@   loop 5 invariant [ri] RI(r) && r.isShuttingDown && Tjobs() && r.defs == old(r.defs) && $held == 2
+//@   loop 3 invariant [ri] r.isShuttingDown && Tjobs() && $held == 0
+//@   loop 4 invariant [ri] RI(r) && r.isShuttingDown && Tjobs() && $held == 1
+//@   loop 5 invariant [ri] RI(r) && r.isShuttingDown && Tjobs() && sinceLock(Tjobs()) && $held == 2
 //@ pure wlEntryC(j *PipelineJob, p string) bool = j != nil && allocated(j) && j.Pipeline == p && j.Start == nil && !j.Completed
 
 //@ func (*PipelineRunner).Shutdown$1
@@ -541,16 +570,16 @@ package prunner
 // ---------------------------------------------------------------------------------------
 // Mapping of obligations to the fixed property ids (glob patterns on obligation names)
 //
-//@ property C01: prunner.(*PipelineJob).isRunning/ensures* prunner.(*PipelineRunner).runningJobsCount/ensures* prunner.(*PipelineRunner).runningJobsCount/loop* prunner.*/ensures[C01.*] prunner.*/call-pre[(*PipelineRunner).startJob.slotFree]* prunner.*/call-pre[(*PipelineRunner).startJob.notStarted]* prunner.*/call-pre[(*PipelineRunner).startJob.offList]* prunner.*/ensures[T] prunner.*/loop*/inv-*[T] prunner.*/monitor[RI] prunner.*/ensures[ri] prunner.*/call-pre[*.ri]* prunner.*/loop*/inv-*[ri] prunner.*/assert[C01.*] prunner.*/assert[cnt*] lemma/cntFrame* prunner/writers[PipelineJob.Start] prunner/writers[PipelineJob.Completed] prunner/writers[PipelineJob.Canceled] prunner.*/call-pre[(*PipelineRunner).startJob$1.token]* prunner.(*PipelineRunner).startJobsOnWaitList/* prunner.(*PipelineRunner).startJob/* prunner.(*PipelineRunner).cancelJobInternal/* prunner.removeJobFromWaitList/* prunner.*/safety
+//@ property C01: prunner.(*PipelineJob).isRunning/ensures* prunner.(*PipelineRunner).runningJobsCount/ensures* prunner.(*PipelineRunner).runningJobsCount/loop* prunner.*/ensures[C01.*] prunner.*/call-pre[(*PipelineRunner).startJob.slotFree]* prunner.*/call-pre[(*PipelineRunner).startJob.notStarted]* prunner.*/call-pre[(*PipelineRunner).startJob.offList]* prunner.*/ensures[T] prunner.*/loop*/inv-*[T] prunner.*/monitor[RI] prunner.*/ensures[ri] prunner.*/call-pre[*.ri]* prunner.*/loop*/inv-*[ri] prunner.*/assert[C01.*] prunner.*/assert[cnt*] lemma/cntFrame* prunner/writers[PipelineJob.Start] prunner/writers[PipelineJob.Completed] prunner/writers[PipelineJob.Canceled] prunner.*/call-pre[(*PipelineRunner).startJob$1.token]* prunner.(*PipelineRunner).startJobsOnWaitList/* prunner.(*PipelineRunner).startJob/* prunner.(*PipelineRunner).cancelJobInternal/* prunner.removeJobFromWaitList/* prunner.*/safety prunner.*/guarantee[T]
 //@ property C03: prunner.*/ensures[C03.*] prunner.*/monitor[RI] prunner.*/ensures[ri] prunner.*/call-pre[*.ri]* prunner.*/loop*/inv-*[ri] prunner.(*PipelineRunner).startJobsOnWaitList/loop* prunner.(*PipelineRunner).startJob/ensures[skipCanceled] prunner.removeJobFromWaitList/* prunner.*/ensures[C05.offList] prunner.*/ensures[C16.defsOnly] prunner.(*PipelineRunner).startJobsOnWaitList/* prunner.(*PipelineRunner).startJob/* prunner.(*PipelineRunner).cancelJobInternal/* prunner.removeJobFromWaitList/* prunner.*/ensures[C12.keepLive] prunner.(*PipelineRunner).SaveToStore/loop* prunner.*/safety
-//@ property C04: prunner.*/assert[C04.*] prunner.*/ensures[C04.*] prunner.(*PipelineRunner).startJob/ensures[skipCanceled] prunner.*/ensures[T] prunner.(*PipelineJob).markAsCanceled/* prunner.*/call-pre[(*PipelineRunner).startJob.*]* prunner/writers[PipelineJob.Canceled] prunner.*/monitor[RI]
+//@ property C04: prunner.*/assert[C04.*] prunner.*/ensures[C04.*] prunner.(*PipelineRunner).startJob/ensures[skipCanceled] prunner.*/ensures[T] prunner.(*PipelineJob).markAsCanceled/* prunner.*/call-pre[(*PipelineRunner).startJob.*]* prunner/writers[PipelineJob.Canceled] prunner.*/monitor[RI] prunner.*/guarantee[T]
 //@ property C05: prunner.*/ensures[C05.*] prunner.*/monitor[RI] prunner.*/ensures[ri] prunner.*/call-pre[*.ri]* prunner.*/loop*/inv-*[ri] prunner.removeJobFromWaitList/* prunner.(*PipelineRunner).runningJobsCount/* prunner.*/ensures[C15.reject] prunner.*/ensures[C15.accept] lemma/cntFrame* prunner.*/loop*/inv-*[others] prunner.*/loop*/inv-*[mine] prunner.*/loop*/inv-*[purged] prunner.(*PipelineRunner).startJobsOnWaitList/* prunner.(*PipelineRunner).startJob/* prunner.(*PipelineRunner).cancelJobInternal/* prunner.removeJobFromWaitList/* prunner.*/safety
 //@ property C06: prunner.*/ensures[C06.*] prunner.(*PipelineRunner).ScheduleAsync/ensures[C05.queue] prunner.(*PipelineRunner).ScheduleAsync/ensures[C05.replace] prunner.(*PipelineRunner).ScheduleAsync/ensures[C05.start] prunner.(*PipelineRunner).startJobsOnWaitList/loop* prunner.*/call-pre[(*PipelineRunner).startJob.offList]* prunner.removeJobFromWaitList/* prunner.*/monitor[RI] prunner.*/ensures[C12.waitLists] prunner.(*PipelineRunner).startJobsOnWaitList/* prunner.(*PipelineRunner).startJob/* prunner.(*PipelineRunner).cancelJobInternal/* prunner.removeJobFromWaitList/* prunner.*/ensures[T] prunner.*/ensures[ri] prunner.*/call-pre[*.ri]*
 //@ property C07: prunner.*/ensures[C07.*] prunner.*/call-pre[(*PipelineRunner).startJob.timerDone]* prunner.*/ensures[C03.timerTruth] prunner.*/ensures[C03.progress] prunner.(*PipelineRunner).ScheduleAsync/ensures[C05.replace] prunner.(*PipelineRunner).startJob/ensures[skipCanceled] prunner.(*PipelineRunner).resolveDequeueJobAction/ensures* prunner/writers[PipelineJob.startTimer] prunner/writers[PipelineJob.StartDelay]
 //@ property C10: prunner.*/ensures[C10.*] prunner.(*PipelineRunner).initialLoadFromStore/loop* prunner.buildJobFromPersistedJob/* helper.*/ensures* store/globalinit[json] store.(*JsonDataStore).Load/ensures[C09.load] prunner.*/assert[C10.*] prunner.(*PipelineJob).isRunning/ensures* prunner.(*PipelineRunner).SaveToStore/loop3/* prunner.(*PipelineRunner).SaveToStore/loop4/*
-//@ property C11: prunner.*/ensures[C11.*] prunner.*/assert[C11.*] prunner.(*PipelineRunner).Shutdown/loop* prunner.(*PipelineRunner).Shutdown/monitor[RI] prunner.(*PipelineRunner).Shutdown/ensures[T] prunner.(*PipelineRunner).Shutdown$1/* prunner/writers[PipelineRunner.isShuttingDown]
-//@ property C12: prunner.*/ensures[C12.*] prunner.(*PipelineRunner).SaveToStore/* prunner.removeJobFromList/* prunner.byCreationTimeDesc/ensures*
-//@ property C13: prunner.*/lock[read] prunner.*/lock[write] prunner.*/lockproto[*] prunner.*/call-pre[*.lockmode]* prunner.*/call-pre[*.guard]* prunner.*/call-pre[*.empty]* prunner.*/ensures[unpublished]
+//@ property C11: prunner.*/ensures[C11.*] prunner.*/assert[C11.*] prunner.(*PipelineRunner).Shutdown/loop* prunner.(*PipelineRunner).Shutdown/monitor[RI] prunner.(*PipelineRunner).Shutdown/ensures[T] prunner.(*PipelineRunner).Shutdown$1/* prunner/writers[PipelineRunner.isShuttingDown] prunner.*/guarantee[gate] prunner.(*PipelineRunner).Shutdown/guarantee[T] prunner/interference[captured]
+//@ property C12: prunner.*/ensures[C12.*] prunner.(*PipelineRunner).SaveToStore/* prunner.removeJobFromList/* prunner.byCreationTimeDesc/ensures* prunner.*/assert[dist*] prunner.*/monitor[RI] prunner.(*PipelineRunner).determineIfJobShouldBeRemoved/*
+//@ property C13: prunner.*/lock[read] prunner.*/lock[write] prunner.*/lockproto[*] prunner.*/call-pre[*.lockmode]* prunner.*/call-pre[*.guard]* prunner.*/call-pre[*.empty]* prunner.*/ensures[unpublished] prunner/interference[captured] prunner.*/guarantee[*]
 //@ property C15: prunner.*/ensures[C15.*] prunner.(*PipelineRunner).resolveScheduleAction/ensures[range] prunner.(*PipelineRunner).isRunning/loop* prunner.(*PipelineRunner).ReadJob/* prunner.(*PipelineRunner).IterateJobs/ensures* prunner.(*PipelineRunner).ListPipelines/ensures* prunner.(*PipelineRunner).ListPipelines/loop* prunner.(*PipelineJob).isRunning/ensures*
 //@ property C08: prunner.*/assert[C08.*] prunner.(*PipelineRunner).JobCompleted/ensures[C04.verdict] prunner.*/assert[C04.cancelMeansError] prunner.(jobTasks).ByName/*
 //@ property C16: prunner.*/ensures[C16.*] prunner.*/ensures[defs] prunner.(*PipelineRunner).resolveDequeueJobAction/ensures[C03.dequeueDecision] prunner/writers[PipelineJob.Tasks] prunner/writers[PipelineJob.Env] prunner/writers[PipelineJob.Variables] prunner/writers[PipelineJob.StartDelay] prunner/writers[PipelineRunner.defs] prunner.*/call-pre[(*PipelineRunner).startJob.timerDone]* prunner.buildJobTasks/* prunner.toStatus/ensures* prunner.buildPipelineGraph/assert[C02.stages] prunner.buildPipelineGraph/loop*
